@@ -279,7 +279,9 @@ SIMPLE_ROWS = ["N1", "B1", "S1in", "S3in", "N2out", "N2in"]
 OVL_SIGS = [[], ["int"], ["double"], ["string"], ["int", "int"], ["bool"], ["int", "string"]]
 # (no (bool) next to (string): recorded known finding, the Lua wrapper passes std::string arguments
 #  as const char *, which C++ overload resolution converts to bool)
-OVL_SIGS_LUA = [[], ["int"], ["string"], ["int", "int"], ["int", "string"], ["string", "bool"], ["bool", "int"]]
+#  (the same root cause makes (string, bool) next to (bool, int) reach the wrong member, so no two
+#  signatures of the same length have string and bool in the same position)
+OVL_SIGS_LUA = [[], ["int"], ["string"], ["int", "int"], ["int", "string"], ["string", "bool"], ["bool", "int", "int"]]
 
 
 def _sig_param(i, t):
@@ -299,8 +301,11 @@ def overload_group(draw, lang, fid, name, sigs, for_fortran=True):
     explicit = draw(st.booleans())
     funcs = []
     # a Fortran generic interface holds either functions or subroutines: one result style per set
-    ret = draw(st.sampled_from([None, dict(row="N", T="int", ctype="int", attrs="")]))
+    # (result types may differ between the members: 'int f(int)' next to 'double f(double, double)')
+    has_ret = draw(st.booleans())
     for i, sig in enumerate(chosen):
+        rT = draw(st.sampled_from(["int", "double", "long", "int", "float"])) if has_ret else None
+        ret = dict(row="N", T=rT, ctype=rT, attrs="") if has_ret else None
         f = dict(name=name, fid=fid + i, cls=None, kind="func", params=[_sig_param(j, t) for j, t in enumerate(sig)],
                  ret=(dict(ret) if ret else None), const=False,
                  suffix=("_v%d" % i) if explicit else None, calls=[], overload_index=i, noverload=n)
@@ -312,8 +317,12 @@ def overload_group(draw, lang, fid, name, sigs, for_fortran=True):
 @st.composite
 def default_func(draw, lang, fid, name, for_fortran=True):
     """tutorial.rst 'Optional arguments': trailing default values."""
-    params = [P("a0", "N1", "double", "double a0")]
-    nd = draw(st.integers(1, 2))
+    # 1-3 leading required arguments, 1-3 trailing defaults (up to six parameters)
+    lead = draw(st.lists(st.sampled_from(["double", "int", "long", "bool", "double"]), min_size=1, max_size=3))
+    params = []
+    for j, T in enumerate(lead):
+        params.append(P("a%d" % j, "N1" if T != "bool" else "B1", T, "%s a%d" % (T, j)))
+    nd = draw(st.integers(1, 3))
     # (the declaration parser accepts a single literal or identifier as default value, no sign)
     choices = [("int", "3", 3), ("bool", "true", True), ("double", "1.5", 1.5), ("long", "7", 7), ("bool", "false", False)]
     for j in range(nd):
@@ -322,9 +331,10 @@ def default_func(draw, lang, fid, name, for_fortran=True):
         p["default"] = text
         p["default_value"] = val
         params.append(p)
-    f = dict(name=name, fid=fid, cls=None, kind="func", params=params, ret=dict(row="N", T="double", ctype="double", attrs=""),
+    rT = draw(st.sampled_from(["double", "int", "long"]))
+    f = dict(name=name, fid=fid, cls=None, kind="func", params=params, ret=dict(row="N", T=rT, ctype=rT, attrs=""),
              const=False, suffix=None, calls=[], ndefault=nd)
-    for nargs in range(1, len(params) + 1):
+    for nargs in range(len(lead), len(params) + 1):
         c = draw(call_vector(f, for_fortran))
         c["nargs"] = nargs
         f["calls"].append(c)
